@@ -2,6 +2,7 @@ pub mod behave;
 pub mod c01;
 pub mod c06;
 pub mod c07;
+pub mod c08;
 pub mod c16;
 pub mod c17;
 pub mod findings;
@@ -13,6 +14,7 @@ pub fn run(id: &str, tier: Tier) -> Option<Report> {
         "C01" => c01::run(tier),
         "C06" => c06::run(tier),
         "C07" => c07::run(tier),
+        "C08" => c08::run(tier),
         "C16" => c16::run(tier),
         "C17" => c17::run(tier),
         _ => return None,
